@@ -38,6 +38,10 @@ func probe() bool {
 			}
 		}
 		fmt.Println("preempt: 200 cases placed", placed, "violations", bad)
+	case "cousins":
+		for i := 0; i < 8; i++ {
+			fmt.Println("cousins depth 5:", runAliasCase([]int64{5, 2, 2, 1, 0, 1}), " depth 2:", runAliasCase([]int64{2, 2, 2, 1, 0, 1}))
+		}
 	case "room":
 		fmt.Println("witness", runReclaimCase([]int64{2, 2, 0, 1, 2, 2, 1, 0, 1, kHier, 0}))
 		stats := map[int64][4]int{}
